@@ -141,9 +141,10 @@ func drainOf(rd io.Reader, mode, bufSize, limit int) (out []byte, err error, pro
 //	2 io.Copy from a bare reader that delivers its last bytes together with io.EOF
 //	3 io.Copy from a bare reader with short reads (half of what is asked for)
 //	4 io.Copy from a bare reader handing out 1000 bytes per call, the last ones together with io.EOF
-const nFeedModes = 5
+//	5 io.Copy from a bare reader handing out one byte per call
+const nFeedModes = 6
 
-var feedModeNames = []string{"Write", "io.Copy(full reads)", "io.Copy(data with EOF)", "io.Copy(half reads)", "io.Copy(1000-byte reads, data with EOF)"}
+var feedModeNames = []string{"Write", "io.Copy(full reads)", "io.Copy(data with EOF)", "io.Copy(half reads)", "io.Copy(1000-byte reads, data with EOF)", "io.Copy(1-byte reads)"}
 
 func feedOf(w io.Writer, data []byte, mode int) (n int64, err error) {
 	switch mode {
@@ -155,6 +156,8 @@ func feedOf(w io.Writer, data []byte, mode int) (n int64, err error) {
 		return io.Copy(w, &bareSource{data: data, step: -1})
 	case 4:
 		return io.Copy(w, &bareSource{data: data, step: 1000, eofLast: true})
+	case 5:
+		return io.Copy(w, &bareSource{data: data, step: 1})
 	}
 	k, err := w.Write(data)
 	return int64(k), err
